@@ -5,6 +5,7 @@ import (
 	"fmt"
 	"go/ast"
 	"go/parser"
+	"go/printer"
 	"go/token"
 	"go/types"
 	"os"
@@ -69,8 +70,8 @@ func funcKey(dir string, fd *ast.FuncDecl) string {
 
 // scanUnexportedFuncs parses (syntax only) the non-test Go files below repo and lists the unexported functions and
 // methods they declare.
-func scanUnexportedFuncs(repo string) (map[string]bool, error) {
-	out := map[string]bool{}
+func scanUnexportedFuncs(repo string) (map[string]string, error) {
+	out := map[string]string{}
 	fset := token.NewFileSet()
 	err := filepath.Walk(repo, func(path string, info os.FileInfo, err error) error {
 		if err != nil {
@@ -95,12 +96,22 @@ func scanUnexportedFuncs(repo string) (map[string]bool, error) {
 		}
 		for _, d := range f.Decls {
 			if fd, ok := d.(*ast.FuncDecl); ok && !token.IsExported(fd.Name.Name) && fd.Name.Name != "init" && fd.Name.Name != "main" {
-				out[funcKey(dir, fd)] = true
+				out[funcKey(dir, fd)] = sigText(fset, fd)
 			}
 		}
 		return nil
 	})
 	return out, err
+}
+
+// sigText: the parameter and result lists of a declaration as written (names dropped would be better, but a rename of
+// a helper rarely renames its parameters; the text is only used to recognise a renamed helper).
+func sigText(fset *token.FileSet, fd *ast.FuncDecl) string {
+	var b bytes.Buffer
+	ft := *fd.Type
+	ft.Func = token.NoPos
+	printer.Fprint(&b, fset, &ft)
+	return strings.Join(strings.Fields(b.String()), " ")
 }
 
 func dumpKnownFuncs(repo string) string {
@@ -111,9 +122,9 @@ func dumpKnownFuncs(repo string) string {
 	}
 	sort.Strings(keys)
 	var b strings.Builder
-	b.WriteString("\n// knownFuncs: the unexported functions of the tree the rules were written for (\"dir|receiver|name\"); a function\n// that is not listed is inlined at its call sites before the analysis (inline.go).\nvar knownFuncs = map[string]bool{\n")
+	b.WriteString("\n// knownFuncs: the unexported functions of the tree the rules were written for (\"dir|receiver|name\" -> signature as\n// written); a function that is not listed is inlined at its call sites before the analysis (inline.go).\nvar knownFuncs = map[string]string{\n")
 	for _, k := range keys {
-		fmt.Fprintf(&b, "\t%q: true,\n", k)
+		fmt.Fprintf(&b, "\t%q: %q,\n", k, m[k])
 	}
 	b.WriteString("}\n")
 	return b.String()
@@ -131,8 +142,26 @@ func inlineOverlay(repo, tags string) (map[string][]byte, []string, map[string]b
 	}
 	unknown := false
 	for k := range have {
-		if !knownFuncs[k] {
+		if _, known := knownFuncs[k]; !known {
 			unknown = true
+		}
+	}
+	// known helpers that are gone: an unknown function with the receiver and signature of one of them is that helper
+	// under a new name, not a new helper
+	renamed := map[string]bool{}
+	for k, sig := range knownFuncs {
+		if _, still := have[k]; still {
+			continue
+		}
+		parts := strings.SplitN(k, "|", 3)
+		for k2, sig2 := range have {
+			if _, known := knownFuncs[k2]; known {
+				continue
+			}
+			p2 := strings.SplitN(k2, "|", 3)
+			if p2[0] == parts[0] && p2[1] == parts[1] && sig2 == sig {
+				renamed[k2] = true
+			}
 		}
 	}
 	if !unknown {
@@ -161,7 +190,7 @@ func inlineOverlay(repo, tags string) (map[string][]byte, []string, map[string]b
 			continue // errors are reported by the main load
 		}
 		dir := strings.TrimPrefix(strings.TrimPrefix(p.PkgPath, modPath), "/")
-		in := &inliner{repo: repo, p: p, dir: dir, cands: map[*types.Func]*inlCand{}, srcs: map[string][]byte{}, done: map[*types.Func]int{}}
+		in := &inliner{repo: repo, p: p, dir: dir, renamed: renamed, cands: map[*types.Func]*inlCand{}, srcs: map[string][]byte{}, done: map[*types.Func]int{}}
 		in.collect()
 		if len(in.cands) == 0 {
 			continue
@@ -204,14 +233,15 @@ func inlineOverlay(repo, tags string) (map[string][]byte, []string, map[string]b
 }
 
 type inliner struct {
-	repo   string
-	p      *packages.Package
-	dir    string
-	cands  map[*types.Func]*inlCand
-	srcs   map[string][]byte
-	report []string
-	seq    int
-	done   map[*types.Func]int // calls inlined, per helper
+	repo    string
+	p       *packages.Package
+	dir     string
+	cands   map[*types.Func]*inlCand
+	srcs    map[string][]byte
+	report  []string
+	renamed map[string]bool // unknown functions that are known helpers under a new name
+	seq     int
+	done    map[*types.Func]int // calls inlined, per helper
 }
 
 func (in *inliner) src(file string) []byte {
@@ -262,7 +292,7 @@ func (in *inliner) collect() {
 			if !ok || fd.Body == nil || token.IsExported(fd.Name.Name) || fd.Name.Name == "init" || fd.Name.Name == "main" {
 				continue
 			}
-			if knownFuncs[funcKey(in.dir, fd)] {
+			if _, known := knownFuncs[funcKey(in.dir, fd)]; known || in.renamed[funcKey(in.dir, fd)] {
 				continue
 			}
 			obj, ok := p.TypesInfo.Defs[fd.Name].(*types.Func)
@@ -481,6 +511,9 @@ func (in *inliner) rewriteFile(f *ast.File, name string) ([]byte, int) {
 
 	// the statement-level expansion of call `call` to candidate c; lhsFinal is the statement that consumes the results
 	// ("x, err := %s", "return %s", "" ...) with %s replaced by the result temporaries.
+	// tail: the call is the only operand of a return of a function with the same results: the helper's returns are
+	// the caller's returns (no temporaries, no rejoining)
+	tail := false
 	expand := func(c *inlCand, call *ast.CallExpr, final func(tmps []string) string) (string, bool) {
 		sig := c.obj.Type().(*types.Signature)
 		if !in.freeNamesOK(c, c.fd.Body, call.Pos()) {
@@ -491,7 +524,7 @@ func (in *inliner) rewriteFile(f *ast.File, name string) ([]byte, int) {
 		var b strings.Builder
 		failedQ = false
 		var tmps []string
-		for i := 0; i < sig.Results().Len(); i++ {
+		for i := 0; i < sig.Results().Len() && !tail; i++ {
 			t := fmt.Sprintf("%s_r%d", id, i)
 			tmps = append(tmps, t)
 			fmt.Fprintf(&b, "var %s %s; ", t, types.TypeString(sig.Results().At(i).Type(), q))
@@ -600,6 +633,10 @@ func (in *inliner) rewriteFile(f *ast.File, name string) ([]byte, int) {
 				case *ast.ReturnStmt:
 					var rt string
 					switch {
+					case tail && len(x.Results) == 0:
+						rt = "return " + strings.Join(resNames, ", ")
+					case tail:
+						return true // the helper's return is the caller's return
 					case len(tmps) == 0:
 						rt = "break " + label
 					case len(x.Results) == 0:
@@ -614,6 +651,11 @@ func (in *inliner) rewriteFile(f *ast.File, name string) ([]byte, int) {
 		}
 		visit(body)
 		btxt := applyEdits(bsrc, redits, start, end)
+		if tail {
+			fmt.Fprintf(&b, "{ %s%s } }", lineDir(c.file, body.Lbrace+1), btxt)
+			in.done[c.obj]++
+			return b.String(), true
+		}
 		if c.nret > 0 {
 			fmt.Fprintf(&b, "%s: switch { default: %s%s }", label, lineDir(c.file, body.Lbrace+1), btxt)
 		} else {
@@ -696,7 +738,10 @@ func (in *inliner) rewriteFile(f *ast.File, name string) ([]byte, int) {
 						want = encl.Results.NumFields()
 					}
 					if c.obj.Type().(*types.Signature).Results().Len() == want && want > 0 {
-						if t, ok := expand(c, call, func(tmps []string) string { return "return " + strings.Join(tmps, ", ") }); ok {
+						tail = true
+						t, ok := expand(c, call, nil)
+						tail = false
+						if ok {
 							edits = append(edits, textEdit{in.off(s.Pos()), in.off(s.End()), t + " " + lineDir(name, s.End())})
 							n++
 							return
